@@ -35,7 +35,9 @@ class SigmaRule(SigmaRuleBase, ProcessingItemTrackingMixin):
         if collect_errors is set to False exceptions are collected in the errors property of the resulting
         SigmaRule object. Else the first recognized error is raised as exception.
         """
+        rule, document_errors = cls.document_as_map(rule, collect_errors, source)
         kwargs, errors = super().from_dict_common_params(rule, collect_errors, source)
+        errors[0:0] = document_errors
 
         # parse log source
         try:
